@@ -1,5 +1,8 @@
 use std::fmt::{Display, Formatter};
+#[cfg(not(tyme4rs_verif_loom))]
 use std::sync::{Arc, Mutex};
+#[cfg(tyme4rs_verif_loom)]
+use loom::sync::{Arc, Mutex};
 
 use lazy_static::lazy_static;
 
@@ -224,8 +227,25 @@ impl PartialEq for ChildLimitInfo {
 
 impl Eq for ChildLimitInfo {}
 
+#[cfg(not(tyme4rs_verif_loom))]
 lazy_static! {
   static ref CHILD_LIMIT_PROVIDER: Arc<Mutex<Box<dyn ChildLimitProvider + Sync + Send + 'static>>> = Arc::new(Mutex::new(Box::new(DefaultChildLimitProvider::new())));
+}
+
+#[cfg(tyme4rs_verif_loom)]
+loom::lazy_static! {
+  static ref CHILD_LIMIT_PROVIDER: Arc<Mutex<Box<dyn ChildLimitProvider + Sync + Send + 'static>>> = Arc::new(Mutex::new(Box::new(DefaultChildLimitProvider::new())));
+}
+
+/// verification hooks (only with `--cfg tyme4rs_verif`)
+#[cfg(all(tyme4rs_verif, not(tyme4rs_verif_loom)))]
+pub fn verif_reset() {
+  CHILD_LIMIT_PROVIDER.clear_poison();
+}
+
+#[cfg(all(tyme4rs_verif, not(tyme4rs_verif_loom)))]
+pub fn verif_poisoned() -> bool {
+  CHILD_LIMIT_PROVIDER.is_poisoned()
 }
 
 /// 童限（从出生到起运的时间段）
